@@ -45,6 +45,8 @@ pub struct Profile {
     pub net_channels: Vec<u16>,
     /// SC_SECURITY carries the optional (zero) serverRandomLen and serverCertLen
     pub sec_optional: bool,
+    /// BER length form of the MCS connect response: 0 shortest, 1 = 81 nn where it fits, 2 = 82 hh ll
+    pub ber_form: u8,
 }
 
 pub fn general_caps() -> Vec<(u16, Vec<u8>)> {
@@ -124,6 +126,7 @@ impl Default for Profile {
             session_id: 0,
             net_channels: vec![],
             sec_optional: false,
+            ber_form: 0,
         }
     }
 }
@@ -245,20 +248,23 @@ pub fn conference_create_response(p: &Profile, blocks: &B) -> B {
 /// BER Connect-Response; returns the builder with the userData octet string content mapped as "ud"
 pub fn mcs_connect_response(p: &Profile, result: i64, user_data: &B) -> B {
     let dp = Asn::Seq(p.domain_params.iter().map(|x| Asn::Int(*x as u64)).collect());
+    // T.125 prescribes BER for the connect PDUs: besides the shortest length form (0) a server may write every
+    // length as 81 nn where it fits (1) or as 82 hh ll (2); integer contents stay minimal
+    let form = p.ber_form;
     let head = {
         let mut v = Vec::new();
-        v.extend_from_slice(&ber::der(&Asn::Enum(result)));
-        v.extend_from_slice(&ber::der(&Asn::Int(p.connect_id as u64)));
-        v.extend_from_slice(&ber::der(&dp));
+        v.extend_from_slice(&ber::der_form(&Asn::Enum(result), &mut |_| form));
+        v.extend_from_slice(&ber::der_form(&Asn::Int(p.connect_id as u64), &mut |_| form));
+        v.extend_from_slice(&ber::der_form(&dp, &mut |_| form));
         v
     };
     let mut ud_hdr = vec![0x04];
-    ber::w_len(&mut ud_hdr, user_data.len());
+    ber::w_len_form(&mut ud_hdr, user_data.len(), form);
     let content_len = head.len() + ud_hdr.len() + user_data.len();
     let mut b = B::new();
     b.bytes("ber.apptag", &[0x7f, 0x66]);
     let mut l = Vec::new();
-    ber::w_len(&mut l, content_len);
+    ber::w_len_form(&mut l, content_len, form);
     b.bytes("ber.applen", &l);
     b.bytes("ber.head", &head);
     b.bytes("ber.udhdr", &ud_hdr);
